@@ -262,7 +262,7 @@ def run(ctx):
     results = {}
     with concurrent.futures.ProcessPoolExecutor(max_workers=min(8, NCPU)) as ex:
         futs = {k: ex.submit(run_world, k, seeds[k], quick, known_k8a) for k in kinds}
-        mkinds = ['fresh', 'deployed', 'pending', 'pending_dirty', 'nomanifest', 'gitmodule'] if quick else kinds
+        mkinds = ['fresh', 'deployed', 'pending', 'pending_dirty', 'nomanifest', 'gitmodule'] if quick else list(kinds)
         mfuts = {k: ex.submit(run_mcp_world, k, mseeds[k], known_k8a) for k in mkinds}
         hfuts = [ex.submit(run_world, k, sd, quick, known_k8a, hs) for k, hs, sd in hjobs]
         for k in kinds:
